@@ -735,11 +735,11 @@ class FuncVerifier:
                 # the element may have called unknown code before it failed: arbitrary heap afterwards; a site inside it
                 # must be evaluable on its own (probe_sites raises otherwise)
                 st.env, st.heap, st.pc = snap_env, snap_heap, snap_pc
-                from .slicing import havoc_state, probe_sites
+                from .slicing import havoc_after_partial, probe_sites
                 probe_sites(self, ast.Expr(value=e), st, 'element / appended value: %s' % str(exc)[:100])
                 self.abstracted.append(dict(line=getattr(e, 'lineno', 0), stmt='element ' + ast.unparse(e)[:80],
                                             reason=str(exc)[:160]))
-                havoc_state(self, st, set())
+                havoc_after_partial(self, st, e)
             return self.E.fresh('elt', ANY)
 
     def ev_Tuple(self, node, st, spec):
@@ -1550,12 +1550,12 @@ class FuncVerifier:
                 except (Unsupported, EngineError, z3.Z3Exception) as e:
                     del self.obligations[no:]
                     st.env, st.heap, st.pc = snap_env, snap_heap, snap_pc
-                    from .slicing import havoc_state, probe_sites, reads_only
+                    from .slicing import havoc_after_partial, probe_sites, reads_only
                     probe_sites(self, ast.Expr(value=v), st, 'value of a record display: %s' % str(e)[:120])
                     self.abstracted.append(dict(line=v.lineno, stmt='record field %r = %s' % (k.value, ast.unparse(v)[:70]),
                                                 reason=str(e)[:160]))
                     if not reads_only(v):
-                        havoc_state(self, st, set())
+                        havoc_after_partial(self, st, v)
                     vals.append((k.value, None))
             else:
                 vals.append((k.value, self.ev(v, st, False)))
